@@ -703,6 +703,10 @@ func (m *MetadataStore) ContactBlock(ctx context.Context, pk crypto.PubKey) (ope
 		return nil, errcode.ErrCode_ErrGroupInvalidType
 	}
 
+	if pk == nil {
+		return nil, errcode.ErrCode_ErrInvalidInput
+	}
+
 	accountPublicKey := m.memberDevice.Member()
 	if accountPublicKey.Equals(pk) {
 		return nil, errcode.ErrCode_ErrInvalidInput
